@@ -1,6 +1,7 @@
 import UnifexModel.Driver.Entry
 import UnifexModel.Proto.RemoteQueue
-import UnifexModel.Proto.EpollOp
+import UnifexModel.Proto.EpollOp2
+import UnifexModel.Proto.TwoCtx
 
 namespace Unifex.Driver.Entries
 open Unifex.Proto
@@ -10,7 +11,10 @@ def remotequeue : ModelEntries :=
       (n, mkEntry (RemoteQueue.sys c) RemoteQueue.obsOf (RemoteQueue.final c))))
 
 def epollop : ModelEntries :=
-  ("epollop", EpollOp.configs.map (fun (n, c) =>
+  ("epollop", (EpollOp.configs ++ EpollOp.configs2).map (fun (n, c) =>
       (n, mkEntry (EpollOp.sys c) EpollOp.obsOf (EpollOp.final c))))
+
+def twoctx : ModelEntries :=
+  ("twoctx", [("x2_schedule", mkEntry TwoCtx.sys TwoCtx.obsOf TwoCtx.final)])
 
 end Unifex.Driver.Entries
